@@ -58,6 +58,12 @@ def rustc_layout_validation(prop, cases, impl, tier, sample_quick=30):
             continue
         if tier != 'thorough' and len(jobs) >= sample_quick:
             break
+        # an extern type whose declared size is not a multiple of its declared alignment (or whose alignment is not a power of
+        # two) cannot exist in the compiler at all: "extern types of declared size/alignment" cannot be supplied for such a world
+        ext = extern_table(c)
+        if any(a <= 0 or (a & (a - 1)) or sz % a for (sz, a) in ext.values()):
+            info['dist'].append('out-of-domain:unrealisable-extern-declaration')
+            continue
         cobs = canon.canon_o3(io['o3'], 'impl')
         files, crate = crate_of(c, cobs)
         o2_items = {tuple(it[1][1:]): it for it in find(io['o2'], 'items')[1:]}
